@@ -181,7 +181,7 @@ func (w *worker) do(job *Job) (res *EpisodeResult, died bool, diag string) {
 			return res, false, ""
 		case bytes.HasPrefix(line, []byte("WATCHDOG ")):
 			w.cmd.Wait()
-			return nil, true, "WATCHDOG: episode exceeded its real-time limit\n" + w.stderr.String()
+			return nil, true, "WATCHDOG: episode burnt 20 s of CPU (or 300 s of wall time) without reaching a hook\n" + w.stderr.String()
 		default:
 			// ERROR lines and anything unexpected
 			if bytes.HasPrefix(line, []byte("ERROR")) {
@@ -266,7 +266,7 @@ func runOne(cfg poolCfg, p *plan.Plan, trace bool) *EpisodeResult {
 func crashSignature(stderr string) (kind, sig string) {
 	switch {
 	case strings.Contains(stderr, "WATCHDOG"):
-		return "watchdog", "watchdog"
+		return "watchdog", "hang:20s-of-cpu-without-reaching-a-hook"
 	case strings.Contains(stderr, "fatal error: stack overflow") || strings.Contains(stderr, "goroutine stack exceeds"):
 		return "crash", "fatal:stack-exhaustion:" + stackCycle(stderr)
 	case strings.Contains(stderr, "fatal error: all goroutines are asleep"):
@@ -274,7 +274,7 @@ func crashSignature(stderr string) (kind, sig string) {
 	case strings.Contains(stderr, "fatal error: concurrent map"):
 		return "crash", "fatal:concurrent-map"
 	case strings.Contains(stderr, "out of memory") || strings.Contains(stderr, "cannot allocate memory"):
-		return "resource", "oom"
+		return "resource", "fatal:out-of-memory"
 	case strings.Contains(stderr, "unexpected signal") || strings.Contains(stderr, "SIGSEGV"):
 		return "crash", "fatal:signal"
 	case strings.Contains(stderr, "panic: "):
